@@ -473,7 +473,8 @@ def gen_scenario(rng: common.Rng, cfg: dict[str, Any]) -> list[list[Any]]:
     def unit(k: int, size: int, c: Fraction) -> list[Fraction]:
         return [c if j == k else Fraction(0) for j in range(size)]
 
-    kind = rng.pick(["alias-in", "alias-in", "alias-out", "alias-out", "tol-chain", "tol-chain", "jac-first", "reopen", "many"])
+    kind = rng.pick(["alias-in", "alias-in", "alias-out", "alias-out", "tol-chain", "tol-chain", "jac-first", "jac-entry", "jac-entry",
+                     "reopen", "many"])
     if cfg.get("sym") and max(sizes.values()) > 1 and rng.chance(0.6):
         kind = "sizes"
     if is_inplace(cfg) and rng.chance(0.7):
@@ -553,6 +554,25 @@ def gen_scenario(rng: common.Rng, cfg: dict[str, Any]) -> list[list[Any]]:
         call(args, rng.pick(["lin-all", "lin-sub"]))
         if rng.chance(0.5):
             call(fresh_args(omit_defaults=False), "exec")
+    elif kind == "jac-entry":
+        # an entry created by `cache_jacobian` itself (a linearization within the tolerance of an executed
+        # input, or a linearization without execution after a clear), then the caller recycles the array
+        # it passed for a far-away point and calls again with it
+        fsize = sizes[focus]
+        far = {focus: [c + rng.pick([Fraction(2), Fraction(-3), Fraction(5, 2)]) for c in base[focus]]}
+        if tol > 0 and rng.chance(0.6):
+            call(fresh_args(omit_defaults=False), "exec")
+            d = unit(rng.randrange(fsize), fsize, tol * rng.pick([Fraction(1), Fraction(1, 2), Fraction(-1)]))
+            args2 = fresh_args({focus: [c + e for c, e in zip(base[focus], d)]}, omit_defaults=False)
+            call(args2, rng.pick(["lin-all", "lin-sub"]))
+        else:
+            args2 = fresh_args(omit_defaults=False)
+            call(args2, "exec")
+            ops.append(["clear"])
+            ops.append(["lin", rng.pick(["all", "sub"]), 0, dict(args2)])
+        ops.append(["mut", args2[focus], [rat(c) for c in far[focus]]])
+        for _ in range(rng.randint(2, 3)):
+            call(args2 if rng.chance(0.7) else fresh_args(far, omit_defaults=False), rng.pick(["lin-all", "lin-all", "lin-sub", "exec"]))
     elif kind == "reopen":
         seen = []
         for _ in range(rng.randint(2, 4)):
